@@ -152,7 +152,21 @@ theorem spectral_order (rw : Bool) {out : SpectralOut α}
   · simpa using spectralPost_order_laplacian F _ _ nm _ _
   · simpa using spectralPost_order_rw F _ _ nm _ _
 
+/-- the embedding is the matrix of eigenvectors, row-normalised when `normalized` (then split by `_split_vars`) -/
+theorem spectral_embedding (rw : Bool) (op : LapOp α) (n : Nat) (values : Vec α) (vectors : Mat α) :
+    (spectralPost F n op rw nm values vectors).2.2
+      = if nm then normalize2 F n (spectralPost F n op rw nm values vectors).1.length
+                    (spectralPost F n op rw nm values vectors).2.1
+        else (spectralPost F n op rw nm values vectors).2.1 := by
+  cases rw <;> cases nm <;> simp [spectralPost]
+
 end spectral
+
+instance (op : LapOp α) (a : Mat α) (values : Vec α) (vectors : Mat α) :
+    Decidable (IsEigenpairs op a values vectors) := by unfold IsEigenpairs; infer_instance
+
+instance (m : SLR α) (sv : Vec α) (u v : Mat α) : Decidable (IsSingularTriplets m sv u v) := by
+  unfold IsSingularTriplets; infer_instance
 
 /-- **the pair that `Spectral.fit` skips is a smallest one** of the solver output (`np.argsort(values)[1:]`), and the
     kept positions with the skipped one are exactly the positions of the solver output, each once. -/
@@ -178,5 +192,244 @@ def sqrtQ (x : ℚ) : ℚ := if x = 25 then 5 else if x = 4 then 2 else if x = 1
 example : sqNorm 2 (normalize2 ⟨sqrtQ, fun x _ => x⟩ 2 2 [[3, 4], [0, 0]]) 0 = 1 ∧
     mget (normalize2 ⟨sqrtQ, fun x _ => x⟩ 2 2 [[3, 4], [0, 0]]) 1 1 = (0 : ℚ) := by
   decide +kernel
+
+/-- scalar functions of the rational examples: `sqrt` exact on 1, 4, 25; `pow x 0 = 1`, `pow x y = x` otherwise -/
+def Fq : Fn ℚ := ⟨sqrtQ, fun x y => if y = 0 then 1 else x⟩
+
+/-- the triangle with weights 2 (regularised degrees 4 = 2²) -/
+def k3 : Mat ℚ := [[0, 2, 2], [2, 0, 2], [2, 2, 0]]
+/-- eigenpairs `(0, D^{1/2}1)`, `(3/2, (1,−1,0))` of its normalised Laplacian, as a solver would return them -/
+def solK3 : LapOp ℚ → Mat ℚ → Nat → Vec ℚ × Mat ℚ := fun _ _ _ => ([0, 3/2], [[1, 1], [1, -1], [1, 0]])
+
+/-- non-vacuity of `spectral_rw_eigen` / `spectral_order`: `fit` succeeds on the triangle, the contract and the
+    square-root hypothesis hold, the returned pair is `(1 − 3/2, D^{-1/2}(1,−1,0))`. -/
+example :
+    (spectralFit Fq 3 3 k3 6 false 1 true (-1) false solK3).toOption.map (fun o => (o.eigenvalues, o.eigenvectors))
+      = some ([-1/2], [[1/2], [-1/2], [0]]) ∧
+    IsEigenpairs (spOp Fq 3 3 k3 false (-1) true) (spAdj 3 3 k3 false)
+      (spSol Fq 3 3 k3 false 1 (-1) solK3 true).1 (spSol Fq 3 3 k3 false 1 (-1) solK3 true).2 ∧
+    (∀ i, i < 3 → Fq.sqrt ((∑ j ∈ range 3, mget k3 i j) + 0) * Fq.sqrt ((∑ j ∈ range 3, mget k3 i j) + 0)
+        = (∑ j ∈ range 3, mget k3 i j) + 0) := by
+  decide +kernel
+
+/-! ### GSVD / SVD -/
+
+section gsvd
+variable (F : Fn α) (nRow nCol : Nat) (a : Mat α) (nnz : Nat) (p : GsvdParams α)
+  (solver : SLR α → Nat → Vec α × Mat α × Mat α)
+
+/-- the operator `GSVD.fit` hands to the solver -/
+abbrev gsOp : SLR α := (gsvdOperator F nRow nCol a p).2.2.2.2
+/-- number of triplets asked from the solver -/
+abbrev gsK : Nat := (gsvdK p.nComponents nRow nCol).toNat
+/-- what the solver returned -/
+abbrev gsSol : Vec α × Mat α × Mat α := solver (gsOp F nRow nCol a p) (gsK nRow nCol p)
+/-- the fitted state -/
+abbrev gsOut : GsvdOut α :=
+  gsvdPost F nRow nCol p (gsK nRow nCol p) (gsvdOperator F nRow nCol a p).2.2.1 (gsvdOperator F nRow nCol a p).2.2.2.1
+    (gsvdOperator F nRow nCol a p).2.1 (gsSol F nRow nCol a p solver).1 (gsSol F nRow nCol a p solver).2.1
+    (gsSol F nRow nCol a p solver).2.2
+
+/-- a successful `GSVD.fit` is `gsvdPost` of the solver output, on a matrix with at least two rows and columns -/
+theorem gsvdFit_ok {out : GsvdOut α} (h : gsvdFit F nRow nCol a nnz p solver = .ok out) :
+    2 ≤ nRow ∧ 2 ≤ nCol ∧ out = gsOut F nRow nCol a p solver := by
+  unfold gsvdFit at h
+  split at h
+  · cases h
+  · dsimp only at h
+    split at h
+    · cases h
+    · rename_i hk
+      have hout := Except.ok.inj h
+      have hk' : 0 < gsvdK p.nComponents nRow nCol ∧ gsvdK p.nComponents nRow nCol < ((min nRow nCol : Nat) : Int) := by
+        constructor
+        · by_contra hc; exact hk (Or.inl (not_lt.mp hc))
+        · by_contra hc; exact hk (Or.inr (not_lt.mp hc))
+      refine ⟨?_, ?_, hout.symm⟩ <;> omega
+
+/-- **`gsvd_operator_denote`**: the matrix whose triplets `GSVD.fit` asks for is `D₁^{-α₁}(A + α 11ᵀ/n_col)D₂^{-α₂}`
+    with `D₁ = diag(A_reg 1)`, `D₂ = diag(A_regᵀ 1)` (pseudo-inverses of the powers); `SVD` is `α₁ = α₂ = 0`. -/
+theorem gsvd_operator_denote (hc : 0 < nCol) (i j : Nat) (hi : i < nRow) (hj : j < nCol) :
+    (gsOp F nRow nCol a p).entry i j
+      = Spec.gsvdEntry F nRow nCol a (p.regularization.getD 0) p.factorRow p.factorCol i j :=
+  gsvdOperator_entry F nRow nCol a p hc i j hi hj
+
+/-- **`gsvd_embedding`**: after a successful fit, `embedding_row_ = D₁^{-α₁} U Σ^{1−α}` and
+    `embedding_col_ = D₂^{-α₂} V Σ^{α}` formed from the returned (re-ordered) triplets, row-normalised when
+    `normalized`; `singular_values_` is in decreasing order and has as many entries as the solver returned. -/
+theorem gsvd_embedding {out : GsvdOut α} (h : gsvdFit F nRow nCol a nnz p solver = .ok out) :
+    let sol := gsSol F nRow nCol a p solver
+    let dr := (gsvdOperator F nRow nCol a p).2.2.1
+    let dc := (gsvdOperator F nRow nCol a p).2.2.2.1
+    let wc := (gsvdOperator F nRow nCol a p).2.1
+    let rowRaw := mkMat nRow sol.1.length (gsvdRowRaw F nRow nCol p (gsK nRow nCol p) dr dc wc sol.1 sol.2.1 sol.2.2)
+    let colRaw := mkMat nCol sol.1.length (gsvdColRaw F nRow nCol p (gsK nRow nCol p) dr dc wc sol.1 sol.2.1 sol.2.2)
+    out.embeddingRow = (if p.normalized then normalize2 F nRow sol.1.length rowRaw else rowRaw) ∧
+    out.embeddingCol = (if p.normalized then normalize2 F nCol sol.1.length colRaw else colRaw) ∧
+    out.singularValues.Pairwise (· ≥ ·) ∧ out.singularValues.length = sol.1.length := by
+  obtain ⟨_, _, hout⟩ := gsvdFit_ok F nRow nCol a nnz p solver h
+  rw [hout]
+  exact ⟨(gsvdPost_embedding F nRow nCol p _ _ _ _ _ _ _).1, (gsvdPost_embedding F nRow nCol p _ _ _ _ _ _ _).2,
+    gsvdPost_order F nRow nCol p _ _ _ _ _ _ _, gsvdPost_sv_length F nRow nCol p _ _ _ _ _ _ _⟩
+
+/-- **`gsvd_predict_row`** (fit level).  After a successful fit whose solver output satisfies the contract,
+    `predict` on row `i` of the fitted matrix (given as the one-row matrix `x`) succeeds only with the embedding of
+    that row: `predict(A[i]) = embedding_row_[i]`, with or without regularisation and normalisation.
+    `pow` has to split the returned singular values (`σ^{1−α} σ^{α} = σ`, `σ^{α} ≠ 0`, i.e. `σ > 0`). -/
+theorem gsvd_predict_row {out : GsvdOut α} (h : gsvdFit F nRow nCol a nnz p solver = .ok out)
+    (hsol : IsSingularTriplets (gsOp F nRow nCol a p) (gsSol F nRow nCol a p solver).1
+      (gsSol F nRow nCol a p solver).2.1 (gsSol F nRow nCol a p solver).2.2)
+    (hpow : ∀ c, c < (gsSol F nRow nCol a p solver).1.length →
+      let s := vget (gsSol F nRow nCol a p solver).1 c
+      F.pow s (1 - p.factorSingular) * F.pow s p.factorSingular = s ∧ F.pow s p.factorSingular ≠ 0)
+    (i : Nat) (hi : i < nRow) (x : Mat α) (hx : ∀ j, j < nCol → mget x 0 j = mget a i j) (xnnz : Nat)
+    {e : Mat α}
+    (hp : gsvdPredict F p nCol out.singularValues out.right out.weightsCol 1 nCol x xnnz = .ok e)
+    (c : Nat) (hc : c < out.singularValues.length) :
+    mget e 0 c = mget out.embeddingRow i c := by
+  obtain ⟨_, hcol, hout⟩ := gsvdFit_ok F nRow nCol a nnz p solver h
+  have he : e = gsvdPredictCore F p nCol out.singularValues out.right out.weightsCol 1 x := by
+    unfold gsvdPredict at hp
+    split at hp
+    · cases hp
+    · exact (Except.ok.inj hp).symm
+  have hlen : out.singularValues.length = (gsSol F nRow nCol a p solver).1.length := by
+    rw [hout]; exact gsvdPost_sv_length F nRow nCol p _ _ _ _ _ _ _
+  rw [he, hout]
+  exact Embedding.gsvd_predict_row F nRow nCol a p _ _ _ _ (by omega) hsol i hi x hx hpow c (by rw [← hlen]; exact hc)
+
+end gsvd
+
+/-- a 2×2 example with rational triplets: `SVD` (`α₁ = α₂ = α = 0`) of `diag(2,1)`, top triplet `(2, e₀, e₀)` -/
+def pSvd : GsvdParams ℚ := { nComponents := 1, regularization := none, factorRow := 0, factorCol := 0,
+                             factorSingular := 0, normalized := true }
+def d21 : Mat ℚ := [[2, 0], [0, 1]]
+def solD21 : SLR ℚ → Nat → Vec ℚ × Mat ℚ × Mat ℚ := fun _ _ => ([2], [[1], [0]], [[1], [0]])
+
+/-- non-vacuity of `gsvd_predict_row` / `gsvd_embedding`: the fit succeeds, the contract and the `pow` hypothesis hold,
+    and `predict` of row 0 succeeds (with the value `embedding_row_[0] = [1]`). -/
+example :
+    (gsvdFit Fq 2 2 d21 2 pSvd solD21).toOption.map (·.embeddingRow) = some [[1], [0]] ∧
+    IsSingularTriplets (gsOp Fq 2 2 d21 pSvd) (gsSol Fq 2 2 d21 pSvd solD21).1 (gsSol Fq 2 2 d21 pSvd solD21).2.1
+      (gsSol Fq 2 2 d21 pSvd solD21).2.2 ∧
+    (Fq.pow 2 (1 - 0) * Fq.pow 2 0 = 2 ∧ Fq.pow 2 0 ≠ 0) ∧
+    (gsvdPredict Fq pSvd 2 [2] [[1], [0]] (gsvdOperator Fq 2 2 d21 pSvd).2.1 1 2 [[2, 0]] 1).toOption = some [[1]] := by
+  decide +kernel
+
+/-! ### PCA -/
+
+section pca
+variable (F : Fn α) (nRow nCol : Nat) (a : Mat α) (nnz : Nat) (nc : Int) (nm : Bool)
+  (solver : SLR α → Nat → Vec α × Mat α × Mat α)
+
+/-- what the solver returned to `PCA.fit` -/
+abbrev pcaSol : Vec α × Mat α × Mat α := solver (pcaOperator nRow nCol a) nc.toNat
+
+/-- a successful `PCA.fit` -/
+theorem pcaFit_ok {out : PcaOut α} (h : pcaFit F nRow nCol a nnz nc nm solver = .ok out) :
+    2 ≤ nRow ∧ 2 ≤ nCol ∧
+    out = pcaPost F nRow nCol nm (pcaMeans nRow nCol a) (pcaSol nRow nCol a nc solver).1
+            (pcaSol nRow nCol a nc solver).2.1 (pcaSol nRow nCol a nc solver).2.2 := by
+  unfold pcaFit at h
+  split at h
+  · cases h
+  · split at h
+    · cases h
+    · rename_i hk
+      have hout := Except.ok.inj h
+      have hk' : 0 < nc ∧ nc < ((min nRow nCol : Nat) : Int) := by
+        constructor
+        · by_contra hc; exact hk (Or.inl (not_lt.mp hc))
+        · by_contra hc; exact hk (Or.inr (not_lt.mp hc))
+      refine ⟨?_, ?_, hout.symm⟩ <;> omega
+
+/-- **`pca_centred_denote`**: the operator handed to the solver (`SparseLR(A, (−1, μ))`) is the column-centred matrix
+    `A − 1μᵀ`, `μ_j` the mean of column `j`; its columns sum to zero; applying it through `SparseLR._matvec` is the
+    product with that matrix. -/
+theorem pca_centred_denote (hr : 0 < nRow) (i j : Nat) (hi : i < nRow) (hj : j < nCol) (x : Vec α) :
+    (pcaOperator nRow nCol a).entry i j = Spec.centredEntry nRow a i j ∧
+    ∑ r ∈ range nRow, Spec.centredEntry nRow a r j = 0 ∧
+    vget ((pcaOperator nRow nCol a).matvec x) i = ∑ c ∈ range nCol, (pcaOperator nRow nCol a).entry i c * vget x c :=
+  ⟨pcaOperator_entry nRow nCol a i j hi hj, centred_colsum_zero nRow a hr j,
+   by rw [pcaOperator_eq]; exact matvec_rank1_entry nRow nCol a _ _ x i hi⟩
+
+/-- **`pca_predict_row`** (fit level): after a successful fit whose solver output satisfies the contract with non-zero
+    singular values, `predict(A[i]) = embedding_row_[i]`, with or without normalisation; the embedding is the matrix
+    of left singular vectors, row-normalised when `normalized`. -/
+theorem pca_predict_row {out : PcaOut α} (h : pcaFit F nRow nCol a nnz nc nm solver = .ok out)
+    (hsol : IsSingularTriplets (pcaOperator nRow nCol a) (pcaSol nRow nCol a nc solver).1
+      (pcaSol nRow nCol a nc solver).2.1 (pcaSol nRow nCol a nc solver).2.2)
+    (hsv : ∀ c, c < (pcaSol nRow nCol a nc solver).1.length → vget (pcaSol nRow nCol a nc solver).1 c ≠ 0)
+    (i : Nat) (hi : i < nRow) (x : Mat α) (hx : ∀ j, j < nCol → mget x 0 j = mget a i j) (xnnz : Nat)
+    {e : Mat α} (hp : pcaPredict F nm nCol out.singularValues out.right out.mean 1 nCol x xnnz = .ok e)
+    (c : Nat) (hc : c < out.singularValues.length) :
+    mget e 0 c = mget out.embeddingRow i c ∧
+    out.embeddingRow = (if nm then normalize2 F nRow out.singularValues.length out.left else out.left) := by
+  obtain ⟨_, _, hout⟩ := pcaFit_ok F nRow nCol a nnz nc nm solver h
+  have he : e = pcaPredictCore F nm nCol out.singularValues out.right out.mean 1 x := by
+    unfold pcaPredict at hp
+    split at hp
+    · cases hp
+    · exact (Except.ok.inj hp).symm
+  constructor
+  · rw [he, hout]
+    exact Embedding.pca_predict_row F nRow nCol a _ _ _ nm hsol i hi x hx hsv c (by rw [hout] at hc; exact hc)
+  · rw [hout]; rfl
+
+end pca
+
+def eye2 : Mat ℚ := [[1, 0], [0, 1]]
+/-- triplet `(1, (1,−1), (1,−1))` of the centred identity (the contract does not ask for unit vectors) -/
+def solEye2 : SLR ℚ → Nat → Vec ℚ × Mat ℚ × Mat ℚ := fun _ _ => ([1], [[1], [-1]], [[1], [-1]])
+
+/-- non-vacuity of `pca_predict_row` -/
+example :
+    (pcaFit Fq 2 2 eye2 2 1 false solEye2).toOption.map (·.embeddingRow) = some [[1], [-1]] ∧
+    IsSingularTriplets (pcaOperator 2 2 eye2) (pcaSol 2 2 eye2 1 solEye2).1 (pcaSol 2 2 eye2 1 solEye2).2.1
+      (pcaSol 2 2 eye2 1 solEye2).2.2 ∧
+    (pcaPredict Fq false 2 [1] [[1], [-1]] (pcaMeans 2 2 eye2) 1 2 [[0, 1]] 1).toOption = some [[-1]] := by
+  decide +kernel
+
+/-! ### RandomProjection -/
+
+/-- **`randomProjection_closed_form`**: the embedding computed by `RandomProjection.fit` on the graph
+    `(n, adjacency)` with effective regularisation `reg ≥ 0` is `Σ_{t ≤ K} αᵗ Mᵗ G` (then row-normalised when
+    `normalized`), where `M = A + reg·11ᵀ/n` or `M = D_reg⁻¹(A + reg·11ᵀ/n)` (`random_walk`), `G` the random matrix. -/
+theorem randomProjection_closed_form (F : Fn α) (n : Nat) (hn : 0 < n) (adjacency : Mat α) (reg alpha : α)
+    (hreg : 0 ≤ reg) (K : Nat) (rw nm : Bool) (q : Mat α) :
+    let k := (q.getD 0 []).length
+    let closed := mkMat n k (Spec.rpClosedForm n (Spec.rpMultiplierEntry n adjacency reg rw) alpha (mget q) K)
+    ∀ i c, i < n → c < k →
+      mget (rpEmbedding F n adjacency reg alpha K rw nm q) i c
+        = mget (if nm then normalize2 F n k closed else closed) i c := by
+  intro k closed i c hi hc
+  have hraw : ∀ i c, i < n → c < k → mget (rpLoop n k adjacency reg alpha rw K q q).2 i c = mget closed i c := by
+    intro i c hi hc
+    rw [rpLoop_closed_form n k adjacency reg alpha rw hn hreg q K i c hi hc, mget_mkMat_lt _ hi hc]
+  unfold rpEmbedding
+  cases nm
+  · simp only [Bool.false_eq_true, if_false]
+    exact hraw i c hi hc
+  · simp only [if_true]
+    exact normalize2_row_congr F n n k _ _ i i hi hi (fun c hc => hraw i c hi hc) c hc
+
+/-- the regularisation handed to the multiplier by `RandomProjection.fit` / `Spectral.fit` is never negative -/
+theorem effective_regularization_nonneg (reg : α) (c : Bool) : 0 ≤ getRegularization reg c :=
+  getRegularization_nonneg reg c
+
+example : mget (rpEmbedding Fq 2 [[0, 1], [1, 0]] 0 (1/2) 2 false false [[1], [0]]) 0 0 = (5/4 : ℚ) ∧
+    Spec.rpClosedForm 2 (Spec.rpMultiplierEntry 2 [[0, 1], [1, 0]] (0:ℚ) false) (1/2) (mget [[1], [0]]) 2 0 0 = 5/4 := by
+  decide +kernel
+
+/-! ### LouvainEmbedding -/
+
+/-- **`louvainEmbedding_closed_form`**: entry `(i, c)` of `normalize(A)·membership(labels)` is the share of the
+    (absolute) weight of row `i` carried by the columns labelled `c` (0 for a null row). -/
+theorem louvainEmbedding_closed_form (n m : Nat) (a : Mat α) (labels : List Int) (i c : Nat) (hi : i < n)
+    (hc : c < membershipCols labels) :
+    mget (louvainProject n m a labels) i c = Spec.louvainEntry m a labels i c :=
+  louvainProject_entry n m a labels i c hi hc
+
+example : mget (louvainProject 2 3 ([[1, 1, 2], [0, 0, 0]] : Mat ℚ) [0, 1, 1]) 0 1 = 3/4 := by decide +kernel
 
 end SkNet.C09
